@@ -112,7 +112,8 @@ static void mode_c12(const Args &a) {
         CaseOut co(i);
         long p0 = pairs;
         if (use_int) run_c12<int>(co, s, pairs, subpaths); else run_c12<double>(co, s, pairs, subpaths);
-        co.hash = mix(canon_hash(s), use_int); co.nontrivial = cycle_space_dim(s) >= 1 && pairs - p0 >= 6;
+        long conn_pairs = 0; { UF uf(s.n); for (auto &e : s.edges) uf.unite(e.u, e.v); std::map<int, long> sz; for (int q = 0; q < s.n; q++) sz[uf.find(q)]++; for (auto &c : sz) conn_pairs += c.second * (c.second - 1); }
+        co.hash = mix(canon_hash(s), use_int); co.nontrivial = cycle_space_dim(s) >= 1 && conn_pairs >= 6;
         co.tag("fam:" + s.family.substr(0, s.family.find('+'))); if (s.tie_rich) co.tag("tie_rich"); if (components(s) > 1) co.tag("disconnected");
         if ((int) (i - a.from) < a.samples) co.sample = J().raw("graph", spec_json(s, 40)).num("ordered_pairs_checked", pairs - p0).done();
         co.end();
